@@ -179,8 +179,38 @@ fn run_lsp_case(prop: &str, bin: &Path, dir: &Path, case: &ProcCase) -> Option<V
     for f in frames {
         input.extend(frame(f));
     }
+    // transport-level variation, derived from the run index: everything at once (maximal
+    // pipelining), one frame per write, or arbitrary chunks that cut headers and bodies anywhere
+    let ri = case.run_index();
+    let frame_lens: Vec<usize> = frames.iter().map(|f| frame(f).len()).collect();
     let writer = std::thread::spawn(move || {
-        let _ = stdin.write_all(&input);
+        match ri % 3 {
+            0 => {
+                let _ = stdin.write_all(&input);
+            }
+            1 => {
+                let mut at = 0;
+                for l in frame_lens {
+                    let _ = stdin.write_all(&input[at..at + l]);
+                    let _ = stdin.flush();
+                    at += l;
+                }
+            }
+            _ => {
+                let mut rng = crate::prng::Rng::new(ri);
+                let mut at = 0;
+                while at < input.len() {
+                    let max = if rng.chance(1, 2) { 7 } else { 300 };
+                    let n = (1 + rng.below(max)).min(input.len() - at);
+                    let _ = stdin.write_all(&input[at..at + n]);
+                    let _ = stdin.flush();
+                    at += n;
+                    if rng.chance(1, 8) {
+                        std::thread::yield_now();
+                    }
+                }
+            }
+        }
         let _ = stdin.flush();
         // keep stdin open until the process has exited: closing it early would make the reader
         // thread of the server see EOF, which is not part of the recorded history
